@@ -35,7 +35,8 @@ def emit(stmts, ind, out):
         elif k == 'ann':
             s.append(len(out) + 1)
             t = s[1]
-            tgt = {'name': lambda: 'v%d' % t[1], 'attr': lambda: 'o%d.a%d' % (t[1], t[2]), 'sub': lambda: 'o%d[i%d]' % (t[1], t[2])}[t[0]]()
+            tgt = {'name': lambda: 'v%d' % t[1], 'attr': lambda: '%s.a%d' % (obj_src(t[1]), t[2]),
+                   'sub': lambda: '%s[i%d]' % (obj_src(t[1]), t[2])}[t[0]]()
             out.append(pad + '%s: T%d%s' % (tgt, s[2], '' if s[3] is None else ' = e%d' % s[3]))
         elif k == 'block':
             s.append(len(out) + 1)
@@ -59,6 +60,25 @@ class Unreadable(Exception):
     pass
 
 
+# the object of an attribute / subscript target: a plain name (tokens 0-4) or a composite expression (5-9); the model treats
+# either as one opaque token
+OBJ_COMPOSITE = {5: 'o0.b0', 6: 'o1[i0]', 7: 'o2.b1.b2', 8: 'o3()', 9: 'o4.b0[i1].b3'}
+
+
+def obj_src(t):
+    return OBJ_COMPOSITE.get(t, 'o%d' % t)
+
+
+def read_obj(n):
+    if isinstance(n, ast.Name):
+        return tok(n.id, 'o')
+    src = ast.unparse(n)
+    for k, v in OBJ_COMPOSITE.items():
+        if v == src:
+            return k
+    raise Unreadable(src)
+
+
 def tok(name, prefix):
     if not name.startswith(prefix):
         raise Unreadable(name)
@@ -68,10 +88,10 @@ def tok(name, prefix):
 def read_target(n):
     if isinstance(n, ast.Name):
         return ['name', tok(n.id, 'v')]
-    if isinstance(n, ast.Attribute) and isinstance(n.value, ast.Name):
-        return ['attr', tok(n.value.id, 'o'), tok(n.attr, 'a')]
-    if isinstance(n, ast.Subscript) and isinstance(n.value, ast.Name) and isinstance(n.slice, ast.Name):
-        return ['sub', tok(n.value.id, 'o'), tok(n.slice.id, 'i')]
+    if isinstance(n, ast.Attribute):
+        return ['attr', read_obj(n.value), tok(n.attr, 'a')]
+    if isinstance(n, ast.Subscript) and isinstance(n.slice, ast.Name):
+        return ['sub', read_obj(n.value), tok(n.slice.id, 'i')]
     raise Unreadable(ast.dump(n))
 
 
